@@ -119,6 +119,17 @@ package fzf
 // h.lines = stored entries (oldest first) followed by one scratch line for the query being typed.
 //@ spec func validHistory(h *History) bool = len(h.lines) >= 1 && 0 <= h.cursor && h.cursor <= len(h.lines) - 1 && h.maxSize >= 1 && h.modified != nil
 
+// A new session loads exactly the stored entries: every element strings.Split produced is kept (nsplit, taken with
+// a ghost when the Split statement has run), plus at most the one scratch line; no cap is applied at load time.
+//@ func NewHistory
+//@ property C18
+//@ ghost nsplit int
+//@ ghost @after"lines := strings.Split(" nsplit = len(lines)
+//@ ensures r0 != nil ==> r1 == nil && fresh(r0) && r0.maxSize == maxSize && r0.modified != nil && len(r0.modified) == 0
+//@ ensures r0 != nil ==> nsplit >= 1 && nsplit <= len(r0.lines) && len(r0.lines) <= nsplit + 1
+//@ ensures r0 != nil ==> len(r0.lines[len(r0.lines)-1]) == 0 && r0.cursor == len(r0.lines) - 1
+//@ ensures r0 == nil ==> r1 != nil
+
 //@ func History.append
 //@ property C18
 //@ requires h != nil && validHistory(h)
